@@ -181,13 +181,23 @@ def run_cases(pid, tier, seed, rundir, search=False):
     replays = json.load(open(os.path.join(rundir, "replays.json")))
     mism, errors = [], []
     t1 = time.time()
+    retry = []
     with concurrent.futures.ThreadPoolExecutor(max_workers=int(os.environ.get("VERIF_JOBS", "16"))) as ex:
         for shard, pairs, err, dt in ex.map(run_shard, [(rundir, s) for s in meta["shards"]]):
-            if pairs is None:
+            if pairs is None and "Error" not in err:
+                retry.append(shard)  # no Coq error message: killed (memory pressure / time limit on a loaded machine)
+            elif pairs is None:
                 errors.append("%s: %s" % (shard, err))
             else:
                 off = meta["shard_offsets"][meta["shards"].index(shard)]
                 mism += [(off + i, code) for i, code in pairs]
+    for shard in retry:  # once more, one at a time
+        shard, pairs, err, dt = run_shard((rundir, shard))
+        if pairs is None:
+            errors.append("%s (after one retry): %s" % (shard, err or "coqc was killed or timed out without a message"))
+        else:
+            off = meta["shard_offsets"][meta["shards"].index(shard)]
+            mism += [(off + i, code) for i, code in pairs]
     return dict(meta=meta, replays=replays, mismatches=sorted(mism), shard_errors=errors,
                 gen_s=gen_s, coq_s=time.time() - t1, harness_out=out[-2000:])
 
